@@ -18,7 +18,7 @@ K_THOROUGH_ONLY = [
 ]
 
 PROPS = {
-    "C01": dict(claim="Bounded symbolic checking of the predicate-graph scheduler: the real MIR of check_predicate_inner and every helper below it (parent map, Kahn levels, deferral, caching, node_edges, the byte-level effect scan) is executed by mirsym on symbolic graphs (1..3 nodes, <=2 edges quick / <=3 thorough, every edge_start and edge target any u16, post-read flag per node), both passes over a shared cache, with an uninterpreted node runner; each path is compared with the reference scheduling semantics (every node once, after all parents, inputs = parents' outputs ascending, pass assignment, verdict, failing indices, gas, data outputs; cyclic/malformed rejected unevaluated). Edge slicing (node_edges) is decided separately against its documented rule. The per-node closure of check_predicate (scheduler and run_program uninterpreted): each node is run with the program stored under its own program address, the parents it was given, the call's solution index and leaf = 'empty edge range'. Node evaluation (run_program, Vm::exec_ops uninterpreted): initial VM state = parents' stacks and memories concatenated in order, leaf [1] / [2] / other mapping, hand-on of (stack, memory), gas and VM errors passed through, concatenation above the limits rejected. Set level (check_set_predicates, check_predicate uninterpreted): all failing solution indices ascending, saturating gas sum, data outputs and caches attached to the right solution. The layers compose through the interfaces that were made uninterpreted.",
+    "C01": dict(claim="Bounded symbolic checking of the predicate-graph scheduler: the real MIR of check_predicate_inner and every helper below it (parent map, Kahn levels, deferral, caching, node_edges, the byte-level effect scan) is executed by mirsym on symbolic graphs (1..3 nodes, <=2 edges quick / <=3 thorough, every edge_start and edge target any u16, post-read flag per node), both passes over a shared cache, with an uninterpreted node runner; each path is compared with the reference scheduling semantics (every node once, after all parents, inputs = parents' outputs ascending, pass assignment, verdict, failing indices, gas, data outputs; cyclic/malformed rejected unevaluated); a flat level of 2..3 leaves with several failing / unsatisfied / data nodes at once (all reported, ascending). Edge slicing (node_edges) is decided separately against its documented rule. The per-node closure of check_predicate (scheduler and run_program uninterpreted): each node is run with the program stored under its own program address, the parents it was given, the call's solution index and leaf = 'empty edge range'. Node evaluation (run_program, Vm::exec_ops uninterpreted): initial VM state = parents' stacks and memories concatenated in order, leaf [1] / [2] / other mapping, hand-on of (stack, memory), gas and VM errors passed through, concatenation above the limits rejected. Set level (check_set_predicates, check_predicate uninterpreted): all failing solution indices ascending, saturating gas sum, data outputs and caches attached to the right solution. The layers compose through the interfaces that were made uninterpreted.",
                 outside=["graphs above the bound", "dangling edge targets: only totality is asserted", "thread schedules (C02)"]),
     "C03": dict(claim="Post-state construction: the two-pass entry point (per-pass check uninterpreted) hands an empty post-state to the first pass and exactly the declared + computed mutations per contract to the second, gas added saturating. Routing: Post* read ops ask the post view, the others the pre view (h_vmio::state_read). Overlay: read_or_fallback + next_key (real MIR) with an uninterpreted pre-state, symbolic keys (<=2 words), <=2 proposed entries incl. deletions, counts 0..2 and any count > 2^40: per position the proposed value if the set proposes one for (contract, key+i) else the pre-state value for exactly that key, untouched contracts pass through, pre-state errors are returned unchanged, key successor with carry exact for keys <=4 words. Deferral: on the same symbolic graphs as C01 every node that depends on a post-state read (itself or an ancestor flagged) is evaluated only in the second pass and every other node exactly once in the first; the byte-level scan that sets the flag (bytes_contains_any) is decided against the parsed program on symbolic byte streams.",
                 outside=["graphs / key lengths above the bound"]),
@@ -57,7 +57,7 @@ PROPS = {
                 outside=["hex strings, Display/FromStr and the serde round trips (JSON / postcard, is_human_readable branches): they run through the hex / serde / serde_json / postcard crates, whose generic Serializer machinery is not modelled", "sizes above the stated bounds"]),
     "C19": dict(claim="The Rust plumbing around the secp256k1 / ed25519 primitives, with the primitives as uninterpreted functions: sign::contract::sign then recover returns the signer's key and verify accepts, for every contract with <=2 predicates (one node, one edge, symbolic fields) and every salt, also when the verifier is given the predicates in the other order, because both sides hash the same content address (ascending predicate addresses, salt); recover / verify / RecoverSecp256k1 return an error (never panic) for every 64-byte signature and every recovery-id byte incl. ids >3; the VM op feeds the library exactly the popped 4+8+1 words in order and pushes encode::public_key's 5-word layout; encode::signature/public_key have the documented word layout. Each run also executes a native differential (real keys, real library) of contract sign/recover/verify and of the three VM crypto ops against the sign/hash crates.",
                 outside=["axiom A1: recover(m, sign(m, sk)) = pubkey(sk) and serialize_compact/from_compact are inverse (libsecp256k1 contract)", "axiom A2: RecoveryId is valid iff 0..=3", "ECDSA / SHA-256 internals and therefore 'after any change to the predicates or salt the recovered key differs' (collision / forgery resistance of the primitives); the harness only shows the changed content reaches the hash input", "contracts with >2 predicates (the sort itself is decided for <=3 addresses by h_hash::addrs_canonical)"]),
-    "C02": dict(claim="Schedule independence at task granularity, with the schedule as a solver-chosen variable: in the three rayon sections (nodes of one graph level in check_predicate_inner, solutions of a set in check_set_predicates, Compute children in compute::compute) the per-item tasks are executed one after another in EVERY order (all permutations for <=3 tasks) and the section's result is assembled by index as rayon's indexed collect / partition does; on every explored order the C01 / C10 oracles must hold, i.e. Ok/Err, failing indices, gas, data outputs, caches and the joined memory equal the sequential reference. Bounds as in the underlying harnesses (graphs <=3 nodes / <=2 edges, <=3 solutions, breadth <=2). Counterexamples are replayed natively 10+2 times on pools of 2..16 threads (a schedule cannot be forced natively; not reproducing = inconclusive).",
+    "C02": dict(claim="Schedule independence at task granularity, with the schedule as a solver-chosen variable: in the three rayon sections (nodes of one graph level in check_predicate_inner, solutions of a set in check_set_predicates, Compute children in compute::compute) the per-item tasks are executed one after another in EVERY order (all permutations for <=3 tasks) and the section's result is assembled by index as rayon's indexed collect / partition does; on every explored order the C01 / C10 oracles must hold, i.e. Ok/Err, failing indices, gas, data outputs, caches and the joined memory equal the sequential reference. A level of 2..3 independent leaves (each true / false / data / failing) makes the order of failing / unsatisfied indices and of data outputs observable. Bounds as in the underlying harnesses (graphs <=3 nodes / <=2 edges, <=3 solutions, breadth <=2). Counterexamples are replayed natively 10+2 times on pools of 2..16 threads (a schedule cannot be forced natively; not reproducing = inconclusive).",
                 outside=["interleavings INSIDE a task (two tasks overlapping in time): tasks share no mutable state except Arc reference counts and the OnceLock in LazyCache, whose single initialisation is std's contract; Rust's Send/Sync rules exclude data races", "rayon's contracts: indexed collect / partition / zip / enumerate preserve index order, join waits for all tasks (trusted, not modelled)", "thread-pool sizes and work stealing themselves; more than 3 tasks per section only in identity / reverse / one rotation", "C03-level inputs beyond the C01 / C10 harness bounds"]),
 }
 
